@@ -1,4 +1,4 @@
-CONSTANTS G = {1, 2}  MaxCalls = 2  WriteThrough = TRUE  D = {1, 2}  Offsets = "private"
+CONSTANTS G = {1, 2}  MaxCalls = 2  WriteThrough = TRUE  D = {1, 2}  Offsets = "private"  PoisonEvery = 0
 SPECIFICATION Spec
 INVARIANTS AckedSurvive
 CHECK_DEADLOCK FALSE
